@@ -270,6 +270,25 @@ def oracle(ck, tier, deep):
     if not np.allclose(d, [0.5, 1.75, -4.0]):
         ck.violation(dict(site="Angular", clause="difference-order"), dict(a=a.tolist(), b=b.tolist(), got=d.tolist()),
                      f"Angular(a) - Angular(b) with len(a) < len(b) returned {d.tolist()}, expected [0.5, 1.75, -4.0]")
+    # radial x angular: the outer product of radial coefficients (any list-like: list, tuple, float or integer array) with the angular ones,
+    # from either side, and the operands are left as they were
+    for it in range(10 if not deep else 60):
+        rad = rng.normal(size=int(rng.integers(1, 5)))
+        A = Angular(rng.normal(size=int(rng.integers(1, 5))))
+        keepA = A.c.copy()
+        want = np.outer(rad, keepA)
+        ck.count(("S.angular.outer", it % 5), suite="S.angular")
+        for form, arg in (("list", rad.tolist()), ("tuple", tuple(rad.tolist())), ("float-array", rad.copy()), ("int-array", np.round(rad * 3).astype(int))):
+            ref = want if form != "int-array" else np.outer(np.round(rad * 3), keepA)
+            try:
+                got = A * arg
+            except Exception as e:
+                ck.violation(dict(site="Angular", clause="outer-product"), dict(radial=form, c=keepA.tolist(), coefficients=np.asarray(arg).tolist()),
+                             f"Angular * radial coefficients given as {form} raised {type(e).__name__}: {e}")
+                continue
+            if np.shape(got) != ref.shape or np.abs(np.asarray(got, float) - ref).max() > 1e-14 * max(1.0, np.abs(ref).max()) or not np.array_equal(A.c, keepA):
+                ck.violation(dict(site="Angular", clause="outer-product"), dict(radial=form, c=keepA.tolist(), coefficients=np.asarray(arg).tolist()),
+                             f"Angular * radial coefficients ({form}) is not their outer product, or the operand changed")
     # B-spline conversion
     from scipy.interpolate import UnivariateSpline, make_interp_spline, splrep
     for it in range(8 if not deep else 60):
